@@ -189,12 +189,27 @@ func (f *fakeAPI) taken() []seenReq {
 }
 
 type world struct {
-	n   *pipeline.Node
-	api *fakeAPI
+	n    *pipeline.Node
+	api  *fakeAPI
+	host string // the API host the configuration names at the moment
+}
+
+const apiHost2 = "api2.hny.test" // Network.HoneycombAPI after the live reload of block D
+
+// reloadAPIHost: Network.HoneycombAPI is reloadable; the running configuration now names another host.
+func (w *world) reloadAPIHost() {
+	if w.host == apiHost2 {
+		return
+	}
+	w.n.Cfg.Mux.Lock()
+	w.n.Cfg.GetHoneycombAPIVal = "http://" + apiHost2
+	w.n.Cfg.Mux.Unlock()
+	w.n.Cfg.Reload() // fires the reload callbacks, as a real reload does
+	w.host = apiHost2
 }
 
 func newWorld() *world {
-	w := &world{n: pipeline.New(pipeline.Options{}), api: &fakeAPI{}}
+	w := &world{n: pipeline.New(pipeline.Options{}), api: &fakeAPI{}, host: apiHost}
 	// a real http.Transport in front (its request validation stays in the path), the fake API registered as the
 	// protocol implementation — the same construction fix/pipeline uses for MemNet.
 	tr := &http.Transport{TLSNextProto: map[string]func(string, *tls.Conn) http.RoundTripper{}}
@@ -310,6 +325,9 @@ func main() {
 		name string
 		sets [9][]int // methods, paths, queries, reqBodies, reqHdrSets, statuses, upHdrSets, upBodies, listeners
 		keep func(idx []int) bool
+		// reloaded: before the request the configured API host is changed by a live reload (last block only: the
+		// worlds stay on the new host afterwards)
+		reloaded bool
 	}
 	all := func(n int) []int {
 		o := make([]int, n)
@@ -326,6 +344,11 @@ func main() {
 		b[1], b[2], b[3], b[4], b[6], b[7], b[8] = []int{2}, []int{1}, []int{1, 2}, []int{1}, []int{1}, []int{1, 3}, []int{0}
 		c[3], c[7], c[8] = []int{1}, []int{1}, []int{1}
 		blocks = []block{{name: "A:shapes", sets: a}, {name: "B:1MiB", sets: b, keep: func(idx []int) bool { return idx[3] == 2 || idx[7] == 3 }}, {name: "C:peer-listener", sets: c}}
+	}
+	{ // block D (both tiers): the relay follows a reloaded Network.HoneycombAPI
+		d := full
+		d[1], d[2], d[3], d[4], d[5], d[6], d[7] = []int{0, 2}, []int{1}, []int{1}, []int{0}, []int{0, 4}, []int{0}, []int{1}
+		blocks = append(blocks, block{name: "D:api-host-reloaded", sets: d, reloaded: true})
 	}
 	// violations are collected per signature and the case with the smallest enumeration index is reported, so the
 	// replay of every signature is the same (simplest) case in every run, whatever the worker interleaving
@@ -359,6 +382,9 @@ func main() {
 			}
 			w := <-pool
 			defer func() { pool <- w }()
+			if blk.reloaded {
+				w.reloadAPIHost()
+			}
 
 			target := pc.Path
 			if q != "" {
@@ -412,8 +438,12 @@ func main() {
 				return
 			}
 			u := seen[0]
-			if u.Host != apiHost || u.Scheme != "http" {
-				fail("request:destination", fmt.Sprintf("sent to %s://%s, configured API is http://%s", u.Scheme, u.Host, apiHost))
+			if u.Host != w.host || u.Scheme != "http" {
+				dsig := "request:destination"
+				if blk.reloaded {
+					dsig += ":after-api-host-reload"
+				}
+				fail(dsig, fmt.Sprintf("sent to %s://%s, configured API is http://%s", u.Scheme, u.Host, w.host))
 			}
 			if u.Method != method {
 				fail("request:method:"+method, fmt.Sprintf("upstream saw method %s, client sent %s", u.Method, method))
